@@ -197,7 +197,9 @@ Next ==
          op == ev.op
          res == Apply(op, st)
          E == res.st
-         judged == res.raises # "skip"        \* out-of-scope argument combinations are not judged
+         \* out-of-scope argument combinations are not judged; whether a detached reaction object exists is
+         \* known to the driver only
+         judged == res.raises # "skip" /\ ~(op.a = "DetachedSetBounds" /\ ev.raises = "skip")
          \* an analysis may legitimately raise (infeasible model ...): its outcome is not predicted, the model
          \* must be unchanged either way
          unexpectedRaise == judged /\ op.a \notin {"Analyze", "Helper"} /\ ev.raises # res.raises
